@@ -9,13 +9,16 @@ pub mod c04;
 pub mod c05;
 pub mod c06;
 pub mod c07;
+pub mod c08;
 pub mod c09;
+pub mod c10;
 pub mod c11;
 pub mod c12;
 pub mod c13;
 pub mod c14;
 pub mod c15;
 pub mod c16;
+pub mod c17;
 pub mod common;
 
 #[derive(Clone, Copy, Debug, PartialEq, Eq)]
@@ -51,13 +54,16 @@ pub fn make(prop: &str, flavour: &str) -> Option<Box<dyn Monitor>> {
         "C05" => Some(Box::new(c05::C05::new())),
         "C06" => Some(Box::new(c06::C06::new())),
         "C07" => Some(Box::new(c07::C07::new())),
+        "C08" => Some(Box::new(c08::C08::new())),
         "C09" => Some(Box::new(c09::C09::new())),
+        "C10" => Some(Box::new(c10::C10::new())),
         "C11" => Some(Box::new(c11::C11::new(flavour))),
         "C12" => Some(Box::new(c12::C12::new())),
         "C13" => Some(Box::new(c13::C13::new())),
         "C14" => Some(Box::new(c14::C14::new())),
         "C15" => Some(Box::new(c15::C15::new())),
         "C16" => Some(Box::new(c16::C16::new(flavour))),
+        "C17" => Some(Box::new(c17::C17::new())),
         _ => None,
     }
 }
